@@ -21,11 +21,15 @@ class C18(core.Property):
     lean_files = ["HappyModel/C18/*.lean", "HappyProofs/C18/*.lean", "HappyModel/Proto.lean", "Driver/C18.lean"]
     theorems = []  # filled from THEOREMS below
     partial_theorems = {
-        "HappyModel.C18.store_trace_satisfies_spec_partial":
+        "HappyModel.C18.store_trace_satisfies_spec_steps":
             "full statement store_trace_satisfies_spec_full (judgeStore of the model's transcript = none) is not proved: "
-            "proved are the judge's knowledge reconstruction (= the model's, every step kind) and the value clause; the clauses "
-            "store/key/missing-after-update, store/gossip/state-omits-known-key and the final clause "
-            "store/gossip/no-convergence-after-heal-and-rounds on the model's transcript are tested only",
+            "proved for every well-formed script (WFPeers / WFStep: stores named by the script and the peer lists are < n): the "
+            "judge's step loop judgeStore.go returns no violation on the model's whole transcript — all per-step clauses "
+            "(store/gossip/state-omits-known-key, store/key/missing-after-update, all value clauses), via the invariant "
+            "store_received_only_if_held. Gap: the final clause store/gossip/no-convergence-after-heal-and-rounds on the model's "
+            "transcript (knowledge-level statement: after trailing rounds whose owed flows are full every store's knowledge of "
+            "every key is the union over the stores at phase start) and the plumbing that judgeStore's pre/suffix split of the "
+            "transcript is a split of the script",
     }
     variants = ["repaired", "current"]   # store family: adoption of a peer's key (fixes/C18-store-adopts-remote-node-id)
     quick_cases = 4500
@@ -720,6 +724,9 @@ THEOREMS = [
     "HappyModel.C18.judgeValue_replica",
     "HappyModel.C18.store_trace_values_accepted",
     "HappyModel.C18.store_trace_satisfies_spec_partial",
+    "HappyModel.C18.store_received_only_if_held",
+    "HappyModel.C18.store_trace_steps_accepted",
+    "HappyModel.C18.store_trace_satisfies_spec_steps",
 ]
 C18.theorems = THEOREMS
 PROPERTY = C18()
